@@ -113,7 +113,7 @@ def run_replay_check(pid: str, tier: str, seed: int) -> int:
 
     shutil.rmtree(trace_dir, ignore_errors=True)
     os.makedirs(trace_dir)
-    results = pool.replay_all(behaviours, procs=14, trace_dir=trace_dir)
+    results = pool.replay_all(behaviours, procs=14, trace_dir=trace_dir, extra_env=plan.get("env", {}))
     herr = [r for r in results if r.get("harness_error")]
     if herr:
         print(herr[0]["harness_error"])
@@ -134,7 +134,8 @@ def run_replay_check(pid: str, tier: str, seed: int) -> int:
         if not r["viol"]:
             completed += 1
             continue
-        mine = [v for v in r["viol"] if pid in v["props"]]
+        mine = [v for v in r["viol"] if pid in v["props"]
+                or (plan.get("claims_actions") and v["a"] in plan["actions"])]
         if not mine:
             other_prop += 1
             continue
